@@ -123,6 +123,7 @@ struct Slot {
   uint64_t reserve = 0;
   int reserve_side = 0;
   int neighbor_of = -1;
+  int interleaved = 0;  // neighbour lives in the host's stride padding (two columns of one matrix: same stride, offset N)
 };
 
 enum Op {
@@ -149,7 +150,7 @@ enum Op {
   OP_CPLX_FROM_TNX32_SIMPLE, OP_CPLX_TO_TNX32_SIMPLE,
   OP_R4_MUL_SIMPLE, OP_R4_ADDMUL_SIMPLE, OP_R4_FROM_CPLX_SIMPLE, OP_R4_TO_CPLX_SIMPLE,
   // object life cycle through the library allocator (C11 conservation; results unused)
-  OP_LIFE_MODULE, OP_LIFE_DFT, OP_LIFE_BIG, OP_LIFE_PPOL, OP_LIFE_PMAT, OP_LIFE_TABLE, OP_LIFE_ALLOC, OP_LIFE_FFT_BUFFERS,
+  OP_LIFE_MODULE, OP_LIFE_DFT, OP_LIFE_BIG, OP_LIFE_PPOL, OP_LIFE_PMAT, OP_LIFE_TABLE, OP_LIFE_ALLOC, OP_LIFE_FFT_BUFFERS, OP_LIFE_MODULE_PAIR,
   OP_NOPS
 };
 
@@ -311,3 +312,5 @@ void table_delete(const TableSpec& t, void* p);
 uint64_t operand_extent(const Program& P, const Call& c, int k);
 uint64_t slot_alloc_bytes(const Program& P, const Slot& s, const std::vector<void*>& mods);
 bool op_is_integer_output(const Program& P, const Call& c, int k);
+/** set by self-checking life-cycle operations (thread local): number of wrong coefficients in the last op_invoke */
+int& op_selfcheck_errors();
